@@ -112,7 +112,7 @@ theorem PInv.modProcEx {w : World} {p : Pid} (hp : PInv (exAdd ex p) fr w) (f : 
     · rw [h]
     · exact h
   refine { ei := hp.ei, ap := ?_, ae := ?_, ar := ?_, fb := ?_, w1 := ?_, wn := ?_, e1 := ?_, en := hp.en,
-           op := ?_, oe := ?_, up := hp.up, ue := hp.ue, oh := ?_ }
+           op := ?_, oe := ?_, up := hp.up, ue := hp.ue, oh := ?_, es := hp.es }
   · intro x; rcases hother x with h | ⟨_, _, _, h, _⟩
     · unfold procAw; rw [h]; exact hp.ap x
     · exact Or.inl h
@@ -169,7 +169,7 @@ theorem PInv.shrinkWaiters {w : World} (hp : PInv ex fr w) (q : Pid) (g : List P
            w1 := fun x y hy hxy => by rw [(hpr y).1]; exact hp.w1 x y ((hpr x).2.2.2.1 y hy) hxy,
            wn := fun x => (hpr x).2.2.2.2,
            e1 := fun h l y hm hy hxy => by rw [(hpr y).1]; exact hp.e1 h l y hm hy hxy,
-           en := hp.en, op := ?_, oe := ?_, up := hp.up, ue := hp.ue,
+           en := hp.en, op := ?_, oe := ?_, up := hp.up, ue := hp.ue, es := hp.es,
            oh := fun e he ha x hb hx h hh => hp.oh e he ha x hb hx h (by rw [← (hpr x).1]; exact hh) }
   · intro e he ha x hb hx
     obtain ⟨q', h1, h2⟩ := hp.op e he ha x hb hx
